@@ -44,7 +44,8 @@ def run(cx):
                 return f"await(?{aw})"
             if name_matches(c.fn, "anemo::network::wire::handshake"):
                 t = strip_identity(o.of_operand(c.args[0]))
-                ok = t[0] == "field" and t[1][0] == "variant" and t[1][2] == "Continue"
+                r_ = payload_root(t)
+                ok = r_ is not t and r_[0] == "call" and name_matches(r_[1], "Future::poll") and t[0] == "field"     # the Ok payload of `connecting.await` (`?` or match)
                 return "handshake(connection)" if ok else f"handshake(?{show(t)})"
             if name_matches(c.fn, f"{CM}::KnownPeers::get"):
                 return "lookup"
@@ -53,7 +54,7 @@ def run(cx):
             if name_matches(c.fn, f"{CM}::ActivePeers::len"):
                 return "len"
             if name_matches(c.fn, "FromResidual::from_residual") and c.dest == 0:
-                return "ret=propagate"
+                return None
             if name_matches(c.fn, ("Connection::close", "Endpoint::close", "ActivePeers::add", "ActivePeers::remove")):
                 return "call:" + c.fn.split("::")[-1]
             return None
@@ -67,7 +68,7 @@ def run(cx):
                     if root[0] == "call" and name_matches(root[1], "Future::poll"):
                         return [] if lab == "Ready" else "pending"
                     if root[0] == "call" and name_matches(root[1], "Try::branch"):
-                        return "?" + lab
+                        return [] if lab == "Continue" else "!err"
                     if term_has_call(u, f"{CM}::KnownPeers::get"):
                         if mentions_field(u, "affinity"):
                             return "aff=" + lab
@@ -106,11 +107,24 @@ def run(cx):
         # small predicate helpers (e.g. an `is_exempt()` on the affinity) are inlined: the table is decided on what they test
         ws = words_of(b, call_sym, mk_edge(b), stmt_sym, inline={"prog": prog, "edge_for": mk_edge})
         ws = {tuple(x for x in w if x != "") for w in ws}
-        pre = "await(connecting) ?Continue lookup "
+        # canonical rows: one word per affinity variant (or-pattern arm == separate arms); a failed `connecting.await` is an
+        # error return whether propagated with `?` or returned from an explicit match
+        def rows(w_):
+            outs = [[]]
+            for x_ in w_:
+                x_ = "ret=Err" if x_ == "!err" else x_
+                if isinstance(x_, str) and x_.startswith("aff=") and "|" in x_:
+                    outs = [p_ + ["aff=" + v_] for p_ in outs for v_ in x_[4:].split("|")]
+                else:
+                    outs = [p_ + [x_] for p_ in outs]
+            return [tuple(p_) for p_ in outs]
+        ws = {r_ for w in ws for r_ in rows(w)}
+        pre = "await(connecting) lookup "
         hs = "handshake(connection) await(handshake) ret=handshake-result <return>"
         check_words(ob, b, ws, {
-            "await(connecting) ?Break ret=propagate <return>",
-            pre + "known=Some aff=Allowed|High " + hs,
+            "await(connecting) ret=Err <return>",
+            pre + "known=Some aff=Allowed " + hs,
+            pre + "known=Some aff=High " + hs,
             pre + "known=Some aff=Never ret=Err <return>",
             pre + "known=None limit? limit=None " + hs,
             pre + "known=None limit? limit=Some len len>=limit:true ret=Err <return>",
@@ -125,7 +139,8 @@ def run(cx):
         ok = t[0] == "call" and name_matches(t[1], "anemo::connection::Connection::peer_id")
         if ok:
             u = strip_identity(t[2][0])
-            ok = u[0] == "field" and u[1][0] == "variant" and u[1][2] == "Continue" and term_has_call(u, "Future::poll")
+            r_ = payload_root(u)
+            ok = r_ is not u and r_[0] == "call" and name_matches(r_[1], "Future::poll")        # the Ok payload of `connecting.await`
         ob.require(ok, "lookup-key", f"known-peer lookup key is {show(t)}", b.path, b.loc(gs[0].bb))
         ob.require(mentions_upvar(arg_origin(gs[0], 0, o), "known_peers"), "lookup-map", "lookup not on the task's known_peers", b.path)
         ls = b.calls_to(f"{CM}::ActivePeers::len")
